@@ -52,6 +52,8 @@ def resolver_pairing(P_):
 
 def run(ctx):
     P = ctx.P
+    from .repo_lookup import tiered_lookup
+    ctx.check('TIERED-LOOKUP', 'a resumption PSK id resolves to the secret of exactly that epoch, or to none', tiered_lookup('GroupStateRepository::resumption_secret'), floor=2)
     ctx.check('EXHAUSTIVE-LOOP', 'every PSK of the list is folded into the PSK secret', lambda P_: exhaustive_loop(P_, 'PskSecret::calculate'), floor=1)
     ctx.check('EXHAUSTIVE-LOOP', 'every PSK id of the list is resolved', lambda P_: exhaustive_loop(P_, 'PskResolver::resolve'), floor=1)
     cfg = ctx.config
